@@ -437,6 +437,7 @@ var c13oxVorTexts = []string{"", "a", "a.b", "k1", "5", "true", "~", "null", "x:
 
 func c13oxRun(c *Ctx) {
 	g := c13Gen()
+	c.Note("opsExt (c13_opsext.go): ExecOp runs real programs of this sandbox (sh -c scripts with exit codes 0..255 and output on both streams, a marker file counting runs, true / false / printf, kill -9, missing programs, a missing working directory, program names rendered from the data) x ValidExitCodes {nil, empty, lists} x Stdout / Stderr {unset, file, templated name, missing directory, a directory} x SaveExitCodeTo {unset, generated target paths}; TemplateFileOp renders generated template files (plain, actions over the data, failing, unparsable) against the root or a Path {container, leaf, list, absent, empty} into {file, stale file, missing directory, a directory, empty, templated name}; Html2DomOp converts serialised generated trees (6 ordinary tag names, <= 4 levels, distinct lower-case attribute names, texts with entities / surrounding and pure white space incl. NBSP and other Unicode spaces, comments) stored at From {string leaf, int leaf, container, absent, empty} with Query {//root-tag, inner tag, //body, invalid, no match, unset} and Layout {unset, default, unknown}; ValOrRef: 1-3 UnmarshalYAML calls on one receiver over YAML texts of every node kind (ref of every type) and hand-built document / alias / zero / sequence nodes, default marshal round trip of every (isRef, Ref, Val) state; AnyVal over plain trees. Assumptions: stdout and stderr go to different files; the harness runs as root (an output file cannot be opened only for a missing parent directory or a directory); the process result, the engine's renderings and the parser's tree are observed by the harness and enter the model as parameter values; HTML trees use no element the parser restructures. As the code is (counted in the distribution, compared with the model, not judged): exit status 0 is not stored at SaveExitCodeTo; Html2DomOp without a Query stores an empty container; a From leaf that is not a string and a `ref` that is not a string panic.")
 	for i, n := 0, c.N(260); i < n; i++ {
 		c.Tick()
 		c.Do("ox-exec", c13oxGenExec(c, g))
